@@ -23,7 +23,8 @@ RULE = (
     "INDEFINITE) and Block/Kitty/ITerm2 images (stills and generated 2..4-frame GIF/WebP animations) per "
     "identity; parameters: render size, padding/alignment, loops/repeat 1..3, cache, terminal size, initial cursor "
     "row (top .. bottom, including rows that force scrolling), TTY vs non-TTY stdout, hide_cursor/echo_input, "
-    "check_size/scroll/allow_scroll; the byte stream is cut at every flush and executed on the reference terminal; "
+    "check_size/scroll/allow_scroll; animations that run to completion and animations ended by a Ctrl-C during the "
+    "k-th wait between frames; the byte stream is cut at every flush and executed on the reference terminal; "
     "distinct = distinct (api, subject kind, identity, still/animated, frames, loops, scroll class, padding class, "
     "validation outcome) tuples"
 )
@@ -43,6 +44,23 @@ PERSONAS = ["other", "kitty-0.32", "kitty-0.25", "konsole", "wezterm", "iterm2"]
 
 def plan(tier, seed):
     return [dict(persona=PERSONAS[i % len(PERSONAS)], seed=seed, index=i, count=N_DRAWS[tier], winsize=[40, 12, 160, 96]) for i in range(SHARDS)]
+
+
+def interruptible_time(case):
+    """Virtual time in which the k-th sleep of the draw() is interrupted by Ctrl-C (the way
+    an animation -- endless by default -- is normally ended)."""
+    vt = dl.VirtualTime()
+    k = case.get("ki_sleep")
+    if k:
+        n = [0]
+
+        def on_sleep(d):
+            n[0] += 1
+            if n[0] == k:
+                raise KeyboardInterrupt
+
+        vt.on_sleep = on_sleep
+    return vt
 
 
 def to_raw(s):
@@ -145,7 +163,7 @@ def run_new(case, env, res):
     sys.stdout = tap
     exc = None
     try:
-        with dl.patched_time(dl.VirtualTime()):
+        with dl.patched_time(interruptible_time(case)):
             subj.draw(None, padding, animate=case["animate"], loops=case["loops"], cache=case["cache"], check_size=case["check_size"], allow_scroll=case["allow_scroll"], hide_cursor=case["hide_cursor"], echo_input=case["echo_input"])
     except Exception as e:
         exc = e
@@ -176,6 +194,10 @@ def run_new(case, env, res):
     for i in frames:
         inner = synth_render(case["kind"], W, H, i * 3)
         refs.append(rpad.pad(inner, Size(W, H)) if (PW, PH) != (W, H) else inner)
+    if animated and case.get("ki_sleep") and case["ki_sleep"] <= len(order):
+        # Ctrl-C during the k-th wait: k frames were shown, the call ends silently
+        order = order[: case["ki_sleep"]]
+        res.count("animations ended by Ctrl-C between two frames")
     if not order:
         # INDEFINITE source with no frame at all: nothing but the final newline
         refs, order = [""], []
@@ -186,7 +208,7 @@ def gen_new(rnd):
     cols, rows = rnd.randint(4, 40), rnd.randint(2, 14)
     W, H = rnd.randint(1, min(cols + 1, 10)), rnd.randint(1, min(rows + 1, 6))
     r = rnd.random()
-    case = dict(api="new", term=[cols, rows], size=[W, H], kind=rnd.choice(["text", "text", "sgr", "ech", "digits"]), animate=rnd.random() < 0.9, loops=rnd.choice([1, 1, 2, 3]), cache=rnd.choice([False, True, 3, 100]), check_size=rnd.random() < 0.8, allow_scroll=rnd.random() < 0.3, hide_cursor=rnd.random() < 0.8, echo_input=rnd.random() < 0.3, tty=rnd.random() < 0.85, r0f=rnd.choice([0, 1000, 1000, rnd.randint(0, 1000)]))
+    case = dict(api="new", term=[cols, rows], size=[W, H], kind=rnd.choice(["text", "text", "sgr", "ech", "digits"]), animate=rnd.random() < 0.9, loops=rnd.choice([1, 1, 2, 3]), cache=rnd.choice([False, True, 3, 100]), check_size=rnd.random() < 0.8, allow_scroll=rnd.random() < 0.3, hide_cursor=rnd.random() < 0.8, echo_input=rnd.random() < 0.3, tty=rnd.random() < 0.85, r0f=rnd.choice([0, 1000, 1000, rnd.randint(0, 1000)]), ki_sleep=rnd.choice([None, None, None, 1, 2, 3, 5]))
     if r < 0.3:
         case["n"] = 1
     elif r < 0.4:
@@ -254,7 +276,7 @@ def run_old(case, env, res, tmpdir, state):
     exc = None
     tell0 = image.tell()
     try:
-        with dl.patched_time(dl.VirtualTime()):
+        with dl.patched_time(interruptible_time(case)):
             image.draw(h, pw, v, ph, alpha, animate=case["animate"], repeat=case["repeat"], cached=case["cached"], scroll=case["scroll"], check_size=case["check_size"], **style)
     except Exception as e:
         exc = e
@@ -294,6 +316,9 @@ def run_old(case, env, res, tmpdir, state):
         if frames_n > 1:
             image.seek(tell0)
         order = list(range(frames_n)) * case["repeat"] if animation else [0]
+        if animation and case.get("ki_sleep") and case["ki_sleep"] <= len(order) - 1:
+            order = order[: case["ki_sleep"]]
+            res.count("animations ended by Ctrl-C between two frames")
         if not case["tty"]:
             pass
         if os.environ.get("VERIF_DEBUG_C06"):
@@ -338,6 +363,7 @@ def gen_old(rnd, persona):
         check_size=rnd.random() < 0.8,
         tty=rnd.random() < 0.85 or style == "kitty",
         r0f=rnd.choice([0, 1000, 1000, rnd.randint(0, 1000)]),
+        ki_sleep=rnd.choice([None, None, None, 1, 2, 3, 5]),
     )
     if style == "kitty":
         kw = {}
